@@ -43,7 +43,7 @@ CallInfo(e) ==
     [] e.op = "set_device_name" ->
          [arg |-> IF NameAccepted(a.cps) THEN "ok" ELSE "reject",
           cmd |-> [kind |-> "setname", name |-> IF NameAccepted(a.cps) THEN NameField(a.cps) ELSE Zeros(32)]]
-    [] e.op = "get_schedules" -> [arg |-> "ok", cmd |-> [kind |-> "getschedules"]]
+    [] e.op = "get_schedules" -> [arg |-> "ok", cmd |-> [kind |-> "getschedules", base |-> IF "base" \in DOMAIN a THEN a.base ELSE <<0, 0>>]]
     [] e.op = "delete_schedule" ->
          [arg |-> IF SlotAccepted(a.slot) THEN "ok" ELSE "open", cmd |-> [kind |-> "delschedule", slot |-> a.slot]]
     [] e.op = "create_schedule" ->
@@ -125,6 +125,7 @@ FrameClauses(s, cmd0, why, b, clk) ==
         THEN Cl(Len(b) >= 41 /\ SubSeq(b, 41, 41) = s.key, "C03:login-key")
         ELSE Cl(Len(b) >= 43 /\ SubSeq(b, 41, 43) = s.dev, "C03:device-id"))
 
+ListBase(s) == IF s.cmd.kind = "getschedules" /\ "base" \in DOMAIN s.cmd THEN s.cmd.base ELSE <<0, 0>>
 ---------------------------------------------------------------------------
 (* reply summaries                                                          *)
 Summary(s, b) ==
@@ -136,7 +137,7 @@ Summary(s, b) ==
       wf |-> IF s.pc = "waitlogin" THEN FALSE
              ELSE CASE s.op = "get_state" -> WellFormedState1(b)
                     [] s.op = "get_shutter_state" -> WellFormedShutter(b)
-                    [] s.op = "get_schedules" -> WholeRecords(b) /\ \A k \in 1..NRecords(b) : RecordInDomain(RecordAt(b, k))
+                    [] s.op = "get_schedules" -> WholeRecords(b) /\ \A k \in 1..NRecords(b) : RecordInDomainRel(RecordAt(b, k), ListBase(s))
                     [] needThermo -> wfT
                     [] OTHER -> FALSE,
       th |-> IF needThermo /\ s.pc = "waitcmd" /\ wfT THEN DecodeThermo(b) ELSE NoThermo]
@@ -164,16 +165,18 @@ DisplayFits(zone, now, g) ==
       k == NextRunK(wd, LocalMin(zone, now), 60 * hm[1] + hm[2], D)
   IN hm # <<>> /\ DayTerm(g.display) = (IF k = 0 THEN <<0>> ELSE IF k = 1 THEN <<1>> ELSE <<2, NextRunDay(wd, k)>>)
 \* listing: one schedule per distinct slot id, each equal to the meaning of a record with that id
+\* (r.base: the listing was taken after 2038 - instants, zone rules and `now` are counted from that base, Schedule!Rel)
 SchedClauses(r, b, zone) ==
   LET n == NRecords(b)
       recs == [k \in 1..n |-> RecordAt(b, k)]
       ids == {RecId(recs[k]) : k \in 1..n}
       got == r.scheds
       idOf(g) == g.id
-      fits(g, rec) == LET m == RecordMeaning(zone, rec) IN
+      base == IF "base" \in DOMAIN r THEN r.base ELSE <<0, 0>>
+      fits(g, rec) == LET m == RecordMeaningRel(zone, rec, base) IN
                         /\ g.id = m.id /\ g.recurring = m.recurring /\ SeqToSet(g.days) = m.days /\ NoDup(g.days)
                         /\ g.start = m.start /\ g.end = m.end /\ g.duration = m.duration
-  IN IF ~(WholeRecords(b) /\ \A k \in 1..n : RecordInDomain(recs[k])) THEN <<>>     \* outside the statement's domain
+  IN IF ~(WholeRecords(b) /\ \A k \in 1..n : RecordInDomainRel(recs[k], base)) THEN <<>>     \* outside the statement's domain
      ELSE Cl(Len(got) = Cardinality(ids), "C10:one-schedule-per-slot-id")
        \o Cl(\A k \in 1..Len(got) : \E j \in 1..n : fits(got[k], recs[j]), "C10:schedule-fields")
        \o Cl(\A x \in ids : \E k \in 1..Len(got) : got[k].id = Decimal(x), "C10:every-slot-listed")
